@@ -183,13 +183,43 @@ func applyStart(m *ir.Module, start string) {
 // staleEdit extends an already printed module so that the numbers of unnamed
 // globals, functions and locals all shift.
 func staleEdit(m *ir.Module) {
-	for _, f := range m.Funcs {
+	for fi, f := range m.Funcs {
 		if len(f.Blocks) == 0 {
 			continue
 		}
 		b := f.Blocks[0]
-		in := ir.NewAdd(constant.NewInt(types.I32, 1), constant.NewInt(types.I32, 2))
-		b.Insts = append([]ir.Instruction{in}, b.Insts...)
+		switch fi % 3 {
+		case 0:
+			// a new unnamed value in front of everything
+			in := ir.NewAdd(constant.NewInt(types.I32, 1), constant.NewInt(types.I32, 2))
+			b.Insts = append([]ir.Instruction{in}, b.Insts...)
+		case 1:
+			// the first numbered value gets a name: everything after it moves down
+			for _, in := range b.Insts {
+				if n, ok := in.(value.Named); ok && isUnnamed(n) && !n.Type().Equal(types.Void) {
+					n.SetName("stale.named")
+					break
+				}
+			}
+		case 2:
+			// the first named block or parameter loses its name: everything moves up
+			done := false
+			for _, p := range f.Params {
+				if !p.IsUnnamed() {
+					p.SetName("")
+					done = true
+					break
+				}
+			}
+			if !done {
+				for _, bb := range f.Blocks {
+					if !bb.IsUnnamed() {
+						bb.SetName("")
+						break
+					}
+				}
+			}
+		}
 	}
 	g := ir.NewGlobalDef("", constant.NewInt(types.I32, 42))
 	m.Globals = append([]*ir.Global{g}, m.Globals...)
@@ -325,17 +355,25 @@ func c13Run(sc *C13Scenario) *c13Outcome {
 		simCall(func() {
 			applyStart(twin, sc.Start)
 			if sc.Start != "printed" {
-				// All tasks make the same calls on the same receiver; the lone
-				// sequential call sequence is that of task 0.
-				var ref []string
-				var app []bool
-				for _, c := range sc.Tasks[0] {
-					s, ok := doCall(twin, c)
-					ref = append(ref, s)
-					app = append(app, ok)
-				}
-				for i := range sc.Tasks {
-					expected[i], applies[i] = ref, app
+				// All tasks print the same receiver; the lone sequential call sequence
+				// is computed once per distinct call list (module prints through
+				// String and WriteTo give the same text, and printing twice is
+				// idempotent, so the order on the twin does not matter).
+				memo := map[string][]string{}
+				memoOK := map[string][]bool{}
+				for i, t := range sc.Tasks {
+					key := fmt.Sprint(t)
+					if _, ok := memo[key]; !ok {
+						var ref []string
+						var app []bool
+						for _, c := range t {
+							s, ok := doCall(twin, c)
+							ref = append(ref, s)
+							app = append(app, ok)
+						}
+						memo[key], memoOK[key] = ref, app
+					}
+					expected[i], applies[i] = memo[key], memoOK[key]
 				}
 			} else {
 				for i, t := range sc.Tasks {
@@ -495,7 +533,16 @@ func c13GenScenario(r *rng, srcs []*moduleSource) *C13Scenario {
 			calls = append(calls, c)
 		}
 		for i := 0; i < nt; i++ {
-			sc.Tasks = append(sc.Tasks, calls)
+			mine := calls
+			if k <= 1 && r.chance(1, 2) {
+				// The same receiver (the module), printed through the other entry point.
+				mine = make([]Call, len(calls))
+				for j, cc := range calls {
+					cc.K = 1 - cc.K
+					mine[j] = cc
+				}
+			}
+			sc.Tasks = append(sc.Tasks, mine)
 		}
 	}
 	sc.Tape = genTape(r, TapeParams{NSched: 2048, MeanGap: gapChoices[r.intn(len(gapChoices))], EdgePct: edgeChoices[r.intn(len(edgeChoices))], EarlyPct: 50, NPool: 512})
